@@ -902,3 +902,110 @@ def rule_full_guard(prog, res, la, rule="R-FULL-GUARD"):
                      "next_write can grant a region (return %s) on a path that never tested whether the ring is exactly full against the slowest reader: with head == tail one lap ahead the writer is handed the reader's unread (possibly mapped) bytes"
                      % ir.render(s.get("e")))
     return n
+
+
+def hold_slots(prog):
+    """number of slots of the hold table, from the declared type of holds.pos"""
+    import re as _re
+    for f in prog.all_funcs():
+        if not f.blocks or not f.file.endswith("channel.c"):
+            continue
+        for b, i, s in f.all_stmts():
+            for y in ir.walk(s):
+                if isinstance(y, dict) and y.get("k") == "mem" and y.get("f") in ("pos", "cycles") and (ir.ap(y) or "").endswith("holds." + y["f"]):
+                    m = _re.search(r"\[(\d+)\]", y.get("t", ""))
+                    if m:
+                        return int(m.group(1))
+    raise AnalysisBroken("declared length of holds.pos not found")
+
+
+def rule_hold_bound(prog, res, rule="R-HOLD-BOUND"):
+    """The hold table has a fixed number of slots; "for all reader counts" includes one more than that.
+    Three clauses make  holds.n <= slots  an invariant and every registration store land inside the table:
+      count-owner : holds.n is written only where a reader registers (one function) and by channel_new's
+                    whole-object initialiser;
+      store-bound : in that function the linear domain proves 0 <= index < slots at the stores into
+                    holds.pos[] / holds.cycles[] (the index comes from the incremented count, so this needs
+                    the 'table full' test *before* the increment);
+      refusal     : channel_read_map forms a hold index from reader->id only on the edge where the
+                    registration succeeded - a refused reader has id 0, index -1."""
+    from .indexguard import rule_index_guards
+    n = 0
+    writers = {}
+    for f in prog.all_funcs():
+        if not f.blocks:
+            continue
+        for b, i, s in f.all_stmts():
+            for lv, op, rhs, w in ir.writes_of(s):
+                if lv.get("k") == "mem" and lv.get("f") == "n" and "channel" in (lv.get("rec") or "") and (ir.ap(lv) or "").endswith("holds.n"):
+                    if op == "=" and ir.is_const(rhs, 0):
+                        continue    # reset (channel_release): lowers the count
+                    writers.setdefault(f.name, []).append((f, s))
+    if not writers:
+        raise AnalysisBroken("no store to holds.n found")
+    reg = [k for k in writers]
+    inst = "holds.n is changed in one place only (the registration of a reader)"
+    if len(reg) == 1:
+        res.oblige(rule, inst, True, "written in %s" % reg[0], writers[reg[0]][0][0].loc(writers[reg[0]][0][1]))
+    else:
+        f_, s_ = writers[sorted(reg)[-1]][0]
+        res.fail(rule, inst, "%s|count-owner" % rule, f_.loc(s_),
+                 "the reader count holds.n is written in %s: the bound established where a reader registers does not cover the other store" % ", ".join(sorted(reg)))
+    n += 1
+    regf = prog.func(sorted(reg)[0])
+    res.touched(regf)
+    k = rule_index_guards(prog, res, [regf.name], rule=rule)
+    if k < 1:
+        raise AnalysisBroken("%s no longer stores into the hold table by index" % regf.name)
+    n += k
+    # refusal
+    for f in prog.all_funcs():
+        if not f.blocks or f is regf:
+            continue
+        calls_reg = [(b.id, i, s) for b, i, s in f.all_stmts() for c in ir.calls_in(s) if c.get("fn") == regf.name]
+        if not calls_reg:
+            continue
+        res.touched(f)
+        uses = []
+        for b, i, s in f.all_stmts():
+            for y in ir.walk(s):
+                if isinstance(y, dict) and y.get("k") == "bin" and y.get("pd") and y.get("op") in ("+", "-"):
+                    a = ir.ap(y.get("l")) or ""
+                    if a.endswith("holds.pos[*]") or a.endswith("holds.cycles[*]") or a.endswith("holds.pos") or a.endswith("holds.cycles"):
+                        if any(isinstance(z, dict) and z.get("k") == "mem" and z.get("f") == "id" for z in ir.walk(y)):
+                            uses.append((b.id, i, s))
+                            break
+                if isinstance(y, dict) and y.get("k") == "idx" and (ir.ap(y.get("b")) or "").split(".")[-1] in ("pos", "cycles") and \
+                        any(isinstance(z, dict) and z.get("k") == "mem" and z.get("f") == "id" for z in ir.walk(y.get("i"))):
+                    uses.append((b.id, i, s))
+                    break
+
+        def registered(cn, lab, blk):
+            if lab not in ("true", "false"):
+                return False
+            c = ir.strip(cn)
+            neg = False
+            while isinstance(c, dict) and c.get("k") == "un" and c.get("op") == "!":
+                neg = not neg
+                c = ir.strip(c["e"])
+            if isinstance(c, dict) and c.get("k") == "ref":
+                t = f.resolve_ref(c)
+                c = ir.strip(t) if t is not None else c
+            if isinstance(c, dict) and c.get("k") == "bin" and c.get("op") in ("==", "!=") and ir.is_const(c.get("r"), 0):
+                if c["op"] == "==":
+                    neg = not neg
+                c = ir.strip(c["l"])
+            if not (isinstance(c, dict) and c.get("k") == "call" and c.get("fn") == regf.name):
+                return False
+            return (lab == "true") != neg
+        for bid, i, s in uses:
+            ok = paths.edge_dominated(f, (bid, i), registered)[0]
+            inst = "%s: the hold slot of reader->id (line %s) is formed only for a registered reader" % (f.name, s.get("line"))
+            if ok:
+                res.oblige(rule, inst, True, "dominated by the success edge of %s" % regf.name, f.loc(s))
+            else:
+                res.fail(rule, inst, "%s|refusal|%s" % (rule, f.name), f.loc(s),
+                         "%s calls %s and then indexes the hold table with reader->id - 1 whatever the answer: a reader for which no slot is left keeps id 0 "
+                         "(index -1), or - when the registration stores before it tests - lands on slot 8, which is holds.n itself" % (f.name, regf.name))
+            n += 1
+    return n
